@@ -72,6 +72,8 @@ impl Vector<f64> {
     /// Return the dot product of two vectors v.dot(w) of f64s
     #[inline]
     pub fn dot_f64(&self, w: &Vector<f64>) -> f64 {
+        #[cfg(ohsl_verif)]
+        use crate::verif_seam::{self as std, num_cpus};
         if self.size() != w.size() { panic!( "Vector sizes do not agree dot()." ); }
         let num_threads = num_cpus::get();
         /*if num_threads < self.size() || num_threads == 1 {
